@@ -19,7 +19,7 @@ LEVEL_TEXT = ('fault enumeration (profile A): every I/O event of a fault-free ru
               'full conjunction of content oracles')
 LEVEL_NOTE = ('trusted: sim/rp66.py, sim/expect.py, sim/schema.py; a fault that did not fire makes the run count as fault-free; '
               'fault-free and fault-injecting profiles are separate cases so that the relaxation under faults hides no ordinary bug')
-TIERS = {'quick': {'cases': 700, 'wall': 45, 'faults_per_case': 6}, 'thorough': {'cases': 150000, 'wall': 840, 'faults_per_case': 10 ** 6}}
+TIERS = {'quick': {'cases': 1800, 'wall': 45, 'faults_per_case': 6}, 'thorough': {'cases': 150000, 'wall': 840, 'faults_per_case': 10 ** 6}}
 RULE = ('case = profile A: valid specification, written once per enumerated fault; profile B: specification with one fringe defect; '
         'non-trivial = a fault fired or the fringe input was actually accepted by the builder (so that write() had to decide); '
         'distinct = case digest')
